@@ -138,6 +138,29 @@ def rule_validators(ctx, r):
                 loc(others[0][1], others[0][0].module) if others else "src/gwf/core.py:1")
 
 
+def rule_no_skipped_dependencies(ctx, r):
+    """A search that marks a target finished must have explored every dependency that was still unvisited: a dependency skipped under some further condition (a depth or
+    size cut-off, a budget) is never searched below, yet its ancestors are marked finished - a cycle that closes there is accepted.  No witness workflow of bounded size
+    can show a cut-off at depth 500; the shape decides: `state[dep] == fresh` may not be conjoined with anything else where the recursive visit hangs off it."""
+    idx = ctx.index
+    cf = idx.func(f"{CORE}:check_for_circular_dependencies")
+    n = 0
+    for f in [cf]:
+        names = {g.name for g in cf.nested.values()} | {cf.name}
+        for st in ast.walk(f.node):
+            if isinstance(st, ast.If) and isinstance(st.test, ast.BoolOp) and isinstance(st.test.op, ast.And):
+                conj = [ast.unparse(v) for v in st.test.values]
+                fresh = [c for c in conj if "fresh" in c or "== 0" in c or "not in" in c and ("visited" in c or "seen" in c or "state" in c)]
+                recursive = any(isinstance(c.func, ast.Name) and c.func.id in names for s in st.body for c in _calls(s))
+                if fresh and recursive and len(conj) > len(fresh):
+                    n += 1
+                    other = [c for c in conj if c not in fresh]
+                    r.violation(f"{f.module.relpath}::{f.qual}::skips-unvisited", f"an unvisited dependency is searched only if `{' and '.join(other)}`: otherwise it is skipped, and the target "
+                                "that depends on it is still marked finished - a cycle that closes below the skipped dependency (a dependency chain longer than the cut-off) is "
+                                "accepted instead of rejected with CircularDependencyError", loc(st, f.module))
+    r.ok("src/gwf/core.py::check_for_circular_dependencies::explores-all", f"every unvisited dependency is searched unconditionally ({n} conditional visits)", cf.where)
+
+
 def rule_validate_before_acting(ctx, r):
     idx = ctx.index
     res = ctx.resolver
@@ -254,6 +277,7 @@ def run(ctx):
     r1 = ctx.rule("R1", "the three validators run on every path of graph construction and raise the error kind that applies", min_instances=1)
     from .c03 import graph_witness_summary
     ctx.structural_or_witness(r1, rule_validators, lambda: graph_witness_summary(ctx), "src/gwf/core.py::Graph.from_targets::validation", both=True)
+    rule_no_skipped_dependencies(ctx, r1)
     r2 = ctx.rule("R2", "duplicate producers are detected across spellings (normalisation, shared with C03)", min_instances=3)
     rule_norm_path(ctx, r2)
     r3 = ctx.rule("R3", "every command validates the workflow before it submits, cancels, deletes or touches anything", min_instances=6)
